@@ -65,6 +65,12 @@ CHECKS = {
   text="BFS over AddRule(v1|v2|expiring) / RemRule / EnableRule / Reload / location disable+enable / clock past the expiry / ProcessEvent / trigger! sequences on {indexed, linear} x {rules local, rules inherited from a parent and toggled in the child}: one rule id to depth 6 (9 thorough), two ids to depth 4 (5). In every reached canonical state the plain event, a trigger! event per id, RuleEnabled and ListRules are compared with the lifecycle automaton (fires with the version last added iff present, unexpired, not disabled here, location enabled); in every disabled state 20 public Location operations must return the disabled error and leave the privileged snapshot (private state dump + storage) unchanged.",
   note="EnableRule only on ids that hold a rule; flag semantics for a parent rule removed while flagged in the child are left unspecified until the next EnableRule; trigger! is only required not to fire suppressed/dead rules when the rule is inherited.",
   design="2/C10"),
+ "C04": dict(
+  engine="GEN+SCHED",
+  technique="bounded-exhaustive enumeration of rule/binding/action shapes, each executed under the controlled scheduler with deviation-bounded DFS over schedules; recording-function oracle + happens-before race detection",
+  text="All shapes {1..2 rules} x {1,2 when-bindings via an array pattern} x {no condition, a pattern condition yielding 0/1/2 bindings} x {1 action, 2 actions, 2 actions with a throwing one} x serialActions {off, on, only on rule 1, only on rule 2} x state: the event is processed under the scheduler (action goroutines, WaitGroup, Values mutex, shared Bindings maps all visible) for every schedule with at most 1 deviation (2 thorough). A Go function installed through App.UpdateJavascriptRuntime records every execution with the variables it can see; the multiset of executions, the work tree nodes, Values and dispositions must equal the expected product, a failing action of a non-serial rule must not stop or alter anything else, and no deadlock, escaped panic or happens-before race may occur.",
+  note="Actions come from one template family reporting candidate variables x,y,e,event,location,ruleId,z. With serialActions a failing action may stop the walk (only 'never twice' is then required).",
+  design="2/C04"),
  "C05": dict(
   engine="GEN",
   technique="bounded-exhaustive enumeration of (pattern, datum, bindings) triples x owned map-iteration orders on the real matcher against an independent reference matcher",
